@@ -289,6 +289,28 @@ fn check_full_expr(env: &Env, e: &Expr, in_condition: bool, ex: &Excl) -> Option
             return hit;
         }
     }
+    if ex.has("compound16_in_condition") {
+        // a compound expression of 16-bit type used as a truth value or as an operand of a comparison
+        let wide = |x: &Expr| -> bool {
+            matches!(x, Expr::Bin(..) | Expr::Un(UnOp::Neg, _) | Expr::Un(UnOp::BNot, _) | Expr::Ternary(..) | Expr::Assign(..) | Expr::IncDec(..) | Expr::Comma(..))
+                && !matches!(x, Expr::Bin(op, _, _) if op.is_cmp() || matches!(op, BinOp::LAnd | BinOp::LOr))
+                && env.expr_ty(x).map(|t| t.bits() == 16 && t != Ty::Ptr).unwrap_or(false)
+        };
+        if in_condition && wide(e) {
+            return Some("compound16_in_condition");
+        }
+        let mut hit16 = false;
+        walk(e, &mut |x| match x {
+            Expr::Bin(op, a, b) if op.is_cmp() && (wide(a) || wide(b)) => hit16 = true,
+            Expr::Bin(BinOp::LAnd, a, b) | Expr::Bin(BinOp::LOr, a, b) if wide(a) || wide(b) => hit16 = true,
+            Expr::Un(UnOp::LNot, a) if wide(a) => hit16 = true,
+            Expr::Ternary(c, _, _) if wide(c) => hit16 = true,
+            _ => {}
+        });
+        if hit16 {
+            return Some("compound16_in_condition");
+        }
+    }
     if ex.has("y_borrow_in_condition") && in_condition && borrows_y(env, e) {
         return Some("y_borrow_in_condition");
     }
